@@ -127,12 +127,32 @@ pub fn family(prop: &str, thorough: bool) -> (Vec<Grammar>, Vec<String>) {
     }
     if prop == "C11" {
         v.extend(names_family());
+        v.extend(commit_return_family());
+        names.push("COMMIT-RETURN: one ordered choice in EBNF(3,0,2) with exactly one `~` and one `&` inserted (every placement)".to_string());
         names.push("NAMES: 17 identifier-stressing names as rule, part, rename and creation names, all pairs of them; EMPTY: empty-bodied rules as part / referenced rule, rules reachable only through an unused part".to_string());
     }
     let mut seen = std::collections::HashSet::new();
     v.retain(|g| seen.insert(g.clone()));
     let v = v.into_iter().map(|g| g.with_skip_token()).collect();
     (v, names)
+}
+
+/// COMMIT-RETURN: a return `&` at a committed position of a function that still returns `Option<()>`.
+pub fn commit_return_family() -> Vec<Grammar> {
+    use vmodel::Rx;
+    let has = |g: &Grammar, want: &Rx| {
+        let mut n = 0;
+        g.walk_all(&mut |_, r| {
+            if r == want {
+                n += 1
+            }
+        });
+        n == 1
+    };
+    choice_family_ops(&ebnf_bound(3, 0, 2, false), 2, &[Rx::Commit, Rx::Return])
+        .into_iter()
+        .filter(|g| has(g, &Rx::Commit) && has(g, &Rx::Return))
+        .collect()
 }
 
 /// NAMES: rule / rename / creation names that stress identifier generation in the emitted code.
